@@ -4,7 +4,8 @@
 From Coq Require Import List NArith ZArith Bool.
 From Coq.Strings Require Import Byte.
 Require Import GV.Base.Res GV.Base.Byt GV.Base.Ints GV.Model.Leb GV.Model.Prim GV.Spec.LineSpec GV.Model.LineRd.
-Require Import GV.Proofs.LineRdBase GV.Proofs.LineRdMono GV.Proofs.LineRdCodec GV.Proofs.LineRdRefine GV.Proofs.LineRdInsn GV.Proofs.LineRdSeq.
+Require Import GV.Proofs.LineRdBase GV.Proofs.LineRdMono GV.Proofs.LineRdCodec GV.Proofs.LineRdRefine GV.Proofs.LineRdInsn GV.Proofs.LineRdSeq
+               GV.Proofs.LineRdHdr GV.Proofs.LineRdHdrSafe GV.Proofs.LineRdU16 GV.Proofs.LineRdHdr5.
 Import ListNotations.
 Local Open Scope N_scope.
 
@@ -212,6 +213,58 @@ Example sequences_example : forall dbg,
   end.
 Proof. exact sample_sequences. Qed.
 
+(* ------------------------------------------------------------------------------------------------
+   The header: "the directory and file tables are exactly those of the DWARF state machine", versions
+   2-5, both formats, both byte orders, any bytes after the unit.
+   enc_unit r prog    := the unit a producer writes for the raw header r (parameters, formats, raw entries)
+   header_of_raw r .. := the header a consumer must see (tables via dir_of_entry / file_of_entry)
+   raw_wf4 / raw_wf5  := parameters in range and non-zero, |standard_opcode_lengths| = opcode_base - 1;
+                         v2-4: non-empty NUL-free names, u64 fields; v5: format codes below 2^14 / 2^16, at
+                         most 255 components with exactly one DW_LNCT_path, every component value in the
+                         class of its form (all 24 supported forms), address size 1/2/4/8; total length fits
+                         the initial-length field.
+   ------------------------------------------------------------------------------------------------ *)
+Theorem header_roundtrip_v2_v4 : forall dbg be asz0 r prog tail,
+  raw_wf4 be r prog ->
+  parse_header dbg be asz0 (enc_unit be r prog ++ tail) = Ok (header_of_raw be asz0 r prog).
+Proof. exact header_roundtrip_v4_lemma. Qed.
+
+Theorem header_roundtrip_v5 : forall dbg be asz0 r prog tail,
+  raw_wf5 be r prog ->
+  parse_header dbg be asz0 (enc_unit be r prog ++ tail) = Ok (header_of_raw be asz0 r prog).
+Proof. exact header_roundtrip_v5_lemma. Qed.
+
+(* every component form: parse_attribute inverts enc_val *)
+Theorem entry_component_roundtrip : forall dbg be fmt64 form v tail,
+  val_ok fmt64 form v ->
+  parse_attribute dbg be fmt64 form (enc_val be fmt64 form v ++ tail) = Ok (v, tail).
+Proof. exact parse_attribute_enc. Qed.
+
+(* LineProgramHeader::parse on ANY byte string and any caller-supplied address size: no panic (the two
+   `path_name.unwrap()`s are unreachable, the u16 LEB accumulation cannot overflow), fuel suffices *)
+Theorem no_panic_parse_header : forall dbg be asz0 bs,
+  parse_header dbg be asz0 bs <> Panic /\ parse_header dbg be asz0 bs <> OutOfFuel.
+Proof. exact parse_header_np. Qed.
+
+Example raw_wf4_example : forall be, raw_wf4 be sample_raw [x01; x02; x03].
+Proof. exact sample_raw_wf. Qed.
+Example raw_wf4_example_header : forall be,
+  let h := header_of_raw be 4 sample_raw [x01; x02; x03] in
+  (h_version h, h_addr_size h, h_max_ops h, h_line_base h, length (h_dirs h), length (h_files h),
+   h_unit_length h, h_header_length h, h_program h) =
+  (3, 4, 1, (-3)%Z, 2%nat, 2%nat, 56, 43, [x01; x02; x03]).
+Proof. exact sample_raw_header. Qed.
+Example raw_wf5_example : forall be, raw_wf5 be sample_raw5 [x01].
+Proof. exact sample_raw5_wf. Qed.
+Example raw_wf5_example_tables : forall be,
+  h_files (header_of_raw be 4 sample_raw5 [x01]) =
+  [mk_file (VString [x61; x2e; x63]) 1 0 65535
+           [x00; x01; x02; x03; x04; x05; x06; x07; x08; x09; x0a; x0b; x0c; x0d; x0e; x0f]
+           (Some (VString [x69; x6e; x74]))] /\
+  h_dirs (header_of_raw be 4 sample_raw5 [x01]) = [VLineStrRef 0; VLineStrRef 4294967295] /\
+  h_addr_size (header_of_raw be 4 sample_raw5 [x01]) = 8.
+Proof. exact sample_raw5_files. Qed.
+
 Check monotone_any_input_refuted : exists dbg be h, hdr_ok h /\ ~ rows_monotone (fst (rows_model dbg be h)).
 Check no_panic_parse_insn : forall dbg be h inp,
   parse_insn dbg be h inp <> Panic /\ parse_insn dbg be h inp <> OutOfFuel.
@@ -222,3 +275,14 @@ Check rows_refine_spec : forall dbg be h is,
   exists rs, rows_model dbg be h = (rs, SEnd) /\ map rep rs = rows_spec h is /\
              Forall (fun r => r_tomb r = false) rs /\
              ~ swallowed_end (fst (fst (rows_ghost dbg be h))).
+Check header_roundtrip_v5 : forall dbg be asz0 r prog tail,
+  raw_wf5 be r prog ->
+  parse_header dbg be asz0 (enc_unit be r prog ++ tail) = Ok (header_of_raw be asz0 r prog).
+Check sequences_eq_rows : forall dbg be h files ss,
+  sequences dbg be h = Ok (files, ss) ->
+  exists tail,
+    fst (rows_model dbg be h) = concat (map (fun s => fst (resume_rows dbg be h s)) ss) ++ tail /\
+    snd (rows_model dbg be h) = SEnd /\
+    Forall (fun r => r_end r = false) tail /\
+    Forall (seq_good dbg be h) ss /\
+    files = st_added (snd (rows_ghost dbg be h)).
